@@ -7,7 +7,7 @@ Local Open Scope N_scope.
 Record oseg := Sg { g_out : N; g_steps : list ostep; g_clock : N; g_pp : list sev; g_ps : list sev }.
 
 Record case2 := mk_case2 {
-  d_prog : program; d_cap : N; d_init : list ievent; d_bounds : list N;
+  d_prog : program; d_cap : N; d_init : list ievent; d_t0 : N; d_hooks : bool; d_bounds : list N;
   o_segs : list oseg;       (* RunUntil b1 .. RunUntil bk, Run — on one engine *)
   o_single : oseg }.        (* a single Run on a fresh engine with the same program *)
 Definition case := case2.
@@ -16,15 +16,16 @@ Definition oseg_eqb (a b : oseg) : bool :=
   (g_out a =? g_out b) && list_eqb ostep_eqb (g_steps a) (g_steps b) && (g_clock a =? g_clock b) &&
   list_eqb sev_eqb (g_pp a) (g_pp b) && list_eqb sev_eqb (g_ps a) (g_ps b).
 
-Definition proj_result (r : sresult) : oseg :=
-  Sg (out_code (r_out r)) (map proj_step (r_log r)) (e_now (r_en r))
+Definition proj_result (hooks : bool) (r : sresult) : oseg :=
+  Sg (out_code (r_out r)) (map (proj_step hooks) (r_log r)) (e_now (r_en r))
      (snapshot (e_p (r_en r))) (snapshot (e_s (r_en r))).
 
 (** model output = implementation output *)
 Definition check_case (c : case) : bool :=
   list_eqb oseg_eqb
-    (map proj_result (run_script_segments (d_prog c) (d_cap c) (d_init c) (d_bounds c))) (o_segs c) &&
-  oseg_eqb (proj_result (run_script (d_prog c) (d_cap c) (d_init c))) (o_single c).
+    (map (proj_result (d_hooks c))
+         (run_script_segments_at (d_prog c) (d_cap c) (d_init c) (d_t0 c) (d_bounds c))) (o_segs c) &&
+  oseg_eqb (proj_result (d_hooks c) (run_script_at (d_prog c) (d_cap c) (d_init c) (d_t0 c))) (o_single c).
 
 (* ---------------------------------------------------------------- the property on the observed behaviour *)
 
@@ -48,7 +49,7 @@ Fixpoint segs_ok (bs : list N) (clock : N) (segs : list oseg) : bool :=
   end.
 
 Definition holds_on (c : case) : bool :=
-  segs_ok (d_bounds c) 0 (o_segs c) &&
+  segs_ok (d_bounds c) (d_t0 c) (o_segs c) &&
   (* ... and nothing that a single Run handles is lost or reordered *)
   list_eqb ostep_eqb (flat_map g_steps (o_segs c)) (g_steps (o_single c)) &&
   (g_clock (last (o_segs c) (o_single c)) =? g_clock (o_single c)) &&
